@@ -15,7 +15,10 @@ import (
 	"fmt"
 	"math/big"
 	"runtime"
+	"runtime/debug"
+	"sort"
 	"sync"
+	"sync/atomic"
 
 	"github.com/polynetwork/poly/common/config"
 	"github.com/polynetwork/poly/common/verifhook"
@@ -35,6 +38,7 @@ type job struct {
 func main() {
 	r := ev.Start("C27", "model_checking")
 	verifhook.SkipSealFlag = true
+	debug.SetGCPercent(400) // allocation-heavy (JSON headers, dumps); memory is not a constraint here
 	env := hsenv.Setup(config.NETWORK_ID_MAIN_NET)
 	w := env.NewWorld()
 	must := func(err error) {
@@ -114,6 +118,26 @@ func main() {
 		}
 	}
 
+	// order: small trees first, ETH and BTC alternating, so that a deadline cuts both chains evenly
+	sort.SliceStable(jobs, func(i, k int) bool { return jobs[i].sh.n() < jobs[k].sh.n() })
+	var je, jb, merged []job
+	for _, j := range jobs {
+		if j.ad.name() == "eth" {
+			je = append(je, j)
+		} else {
+			jb = append(jb, j)
+		}
+	}
+	for len(je) > 0 || len(jb) > 0 {
+		if len(je) > 0 {
+			merged, je = append(merged, je[0]), je[1:]
+		}
+		if len(jb) > 0 {
+			merged, jb = append(merged, jb[0]), jb[1:]
+		}
+	}
+	jobs = merged
+	var capped int32
 	var mu sync.Mutex
 	tot := map[string]*treeStats{}
 	trees := map[string]int{}
@@ -130,6 +154,7 @@ func main() {
 			for j := range ch {
 				if r.Expired() {
 					r.Capped("deadline: not all trees explored (family " + j.fam + ")")
+					atomic.StoreInt32(&capped, 1)
 					continue
 				}
 				in, err := j.ad.build(j.sh)
@@ -154,6 +179,7 @@ func main() {
 				mu.Unlock()
 				if st.truncated {
 					r.Capped("deadline inside BFS of family " + j.fam)
+					atomic.StoreInt32(&capped, 1)
 				}
 			}
 		}()
@@ -164,8 +190,10 @@ func main() {
 	close(ch)
 	wg.Wait()
 
-	// vacuity guard (only meaningful when nothing was flagged: a broken fork choice also removes outcome classes)
-	if r.NViolations() == 0 {
+	// vacuity guard (only meaningful when nothing was flagged — a broken fork choice also removes outcome
+	// classes — and the space was completed; a capped run only requires the basic classes)
+	r.Require("eth:accept", "eth:orphan-reject", "eth:dup-noop")
+	if r.NViolations() == 0 && atomic.LoadInt32(&capped) == 0 {
 		for _, c := range []string{"accept", "accept-batch2", "dup-noop", "orphan-reject", "batch-atomic-reject", "invalid-header-ignored",
 			"extend-head", "reorg-same-height", "reorg-to-longer", "reorg-to-shorter", "tie-observed", "longer-but-lighter-kept", "side-lighter-kept"} {
 			r.Require("eth:"+c, "btc:"+c)
